@@ -13,13 +13,12 @@ _cache = {}
 
 
 def _schema(text):
-    from fcp.parser import get_fcp_from_string
-    from fcp.error import Logger
+    from .impl import parse
 
     if text not in _cache:
         if len(_cache) > 64:
             _cache.clear()
-        r = get_fcp_from_string(text, Logger({}))
+        r = parse(text)  # a schema text, or a schema spread over module files (impl.files_text)
         if r.is_err():
             raise RuntimeError("schema rejected: " + repr(r.err()))
         _cache[text] = r.unwrap()
@@ -306,8 +305,11 @@ def run(prop, tier, replay=None):
                 d.sweep = True
                 descs.append(d)
 
-    # phase 0: schema dicts from the real parser
-    texts = [d.text() for d in descs]
+    # phase 0: schema dicts from the real parser; every sixth random schema is spread over module files (an enum and a struct
+    # declared before the imports, two namesake modules): names must mean in the merged schema what they mean in one text
+    from .impl import files_text
+    texts = [files_text(gen.module_files(d, rng)) if (i % 6 == 5 and i < n_schemas) else d.text() for i, d in enumerate(descs)]
+    rep.cov["schemas_over_module_files"] = sum(1 for t in texts if t.startswith("//@@FILES"))
     sd = run_cases("harness.codec", "w_schema_dict", [{"text": t} for t in texts], timeout_s=20)
     cases = []  # (desc index, struct, py value, model value)
     for i, d in enumerate(descs):
